@@ -14,7 +14,7 @@
 #include "kmodel.h"
 #include "pmodel.h"
 
-#define MAXE 4
+#define MAXE 40
 #define MAXP 3
 
 struct erec {
@@ -289,7 +289,7 @@ carry_on:
 	if (sx_opt("selfpost", 0)) {
 		sx_cover("event.owner-posts-before-main");
 		post(&E[0]);
-		if (P_owner_acts == 2)
+		if (P_owner_acts == 2 || sx_opt("selfpost", 0) == 2)
 			for (i = 1; i < nE; i++)
 				post(&E[i]);	/* all collected for the same dispatch run */
 	}
